@@ -61,14 +61,20 @@ func sizeGen(min int) *rapid.Generator[int] {
 
 func genCase(rt *rapid.T, signal string) Case {
 	c := Case{Signal: signal}
-	c.Proto = rapid.SampledFrom([]string{"Http1", "Http2", "bolt"}).Draw(rt, "proto")
-	c.Phase = rapid.SampledFrom(phases).Draw(rt, "phase")
+	// both families run from the same shard seed: rotate the SIGHUP draws so the two do not mirror each other
+	rot := 0
+	if signal == "SIGHUP" {
+		rot = 1
+	}
+	protos := []string{"Http1", "Http2", "bolt"}
+	c.Proto = protos[(rapid.IntRange(0, 2).Draw(rt, "proto")+rot)%3]
+	c.Phase = phases[(rapid.IntRange(0, 4).Draw(rt, "phase")+2*rot)%5]
 	for i := range c.KeepAlive {
 		c.KeepAlive[i] = rapid.Bool().Draw(rt, fmt.Sprintf("keepalive%d", i))
 	}
 	c.Warm = rapid.IntRange(0, 3).Draw(rt, "warm")
 	c.ExtraMs = rapid.IntRange(0, 20).Draw(rt, "extraMs")
-	c.PostMs = rapid.IntRange(0, 50).Draw(rt, "postMs")
+	c.PostMs = rapid.OneOf(rapid.IntRange(0, 50), rapid.IntRange(0, 300)).Draw(rt, "postMs")
 	c.DReq = sizeGen(2).Draw(rt, "dreq")
 	c.DResp = sizeGen(2).Draw(rt, "dresp")
 	for i := range c.Seeds {
